@@ -148,7 +148,7 @@ func (x *Exec) call(st *State, res *ssa.Call, c *ssa.CallCommon, in ssa.Instruct
 		}
 	}
 	fc := x.w.contractFor(fn)
-	if fc != nil && !fc.Inline {
+	if fc != nil && !fc.Inline && !(x.pureMode > 0 && fn.Blocks != nil && x.canInline(st, fn)) {
 		var recv *types.Var
 		if fn.Signature.Recv() != nil {
 			recv = fn.Signature.Recv()
